@@ -91,6 +91,12 @@ pub fn run(ctx: &mut Ctx) {
         }
         for s in sp {
             let d = est.create(s);
+            // the same estimator asked again gives the same per-state durations (equal-cost
+            // ties are broken the same way every time)
+            if est.create(s) != d {
+                ctx.violation("durations-differ-between-two-calls", descr(J::obj().set("speed", s)));
+                return;
+            }
             let total: usize = d.iter().sum();
             if d.len() != nst {
                 ctx.violation("duration-count", descr(J::obj().set("speed", s).set("len", d.len())));
@@ -186,9 +192,22 @@ pub fn run(ctx: &mut Ctx) {
             grid.push(rng.range(10, 999) as f64 / 100.0);
         }
         grid.sort_by(|a, b| a.total_cmp(b));
-        for s in grid {
-            let mut e = bundled.clone();
-            e.condition.set_speed(s);
+        for (gi, s) in grid.into_iter().enumerate() {
+            // one engine in four is put together by hand with the speed set on the condition
+            // *before* the voice's defaults are loaded into it
+            let mut e = if (idx + gi) % 4 == 3 {
+                let mut c = jbonsai::Condition::default();
+                c.set_speed(s);
+                if c.load_model(&bundled.voices).is_err() {
+                    ctx.violation("load-model-err", J::Null);
+                    return;
+                }
+                jbonsai::Engine::new(bundled.voices.clone(), c)
+            } else {
+                let mut e = bundled.clone();
+                e.condition.set_speed(s);
+                e
+            };
             let run = match trajectories(&e, labels.clone()) {
                 Ok(r) => r,
                 Err(er) => {
@@ -201,7 +220,21 @@ pub fn run(ctx: &mut Ctx) {
                 ctx.violation("speed-not-stored", J::obj().set("set", s).set("get", e.condition.get_speed()));
             }
             let (want, a) = total_at_speed(f1, s, nst);
-            let wave_len = e.synthesize(labels.clone()).map(|w| w.len()).unwrap_or(usize::MAX);
+            // time stamps on the lines change nothing while alignment is off (every other case)
+            let wave_len = if (idx + gi) % 2 == 0 {
+                e.synthesize(labels.clone()).map(|w| w.len()).unwrap_or(usize::MAX)
+            } else {
+                let mut t = 0u64;
+                let lines: Vec<String> = labels
+                    .iter()
+                    .map(|l| {
+                        let a = t;
+                        t += rng.range(100_000, 2_000_000) as u64;
+                        format!("{} {} {}", a, t, l)
+                    })
+                    .collect();
+                e.synthesize(lines).map(|w| w.len()).unwrap_or(usize::MAX)
+            };
             if wave_len != total * e.condition.get_fperiod() {
                 ctx.violation("length-not-frames-times-fperiod", J::obj().set("len", wave_len).set("frames", total));
             }
